@@ -30,5 +30,19 @@ PROPS["C18"] = {
     "technique": "runtime monitoring: differential oracle (independent reference + CPython) over bounded-exhaustive inputs",
 }
 
+PROPS["C13"] = {
+    "level": "exploration",
+    "engines": [
+        {"bin": "hv", "args": ["c13"]},
+        {"bin": "py", "fn": "c13_xcheck", "tag": "cpython"},
+    ],
+    "min": {"quick": {"evaluations": 1_500_000, "mutants_invalid": 10_000, "serialised_values": 10_000},
+            "thorough": {"evaluations": 20_000_000}},
+    "assumptions": [],
+    "level_text": "Value::parse is executed on complete short-string spaces over three alphabets (characters, tokens, number symbols), boundary texts, nesting around the limit, generated documents and all their single-edit mutants; serialize/serialize_pretty on generated values over all of Unicode and the finite f64 range. Every verdict and value is compared with an independent RFC 8259 recogniser.",
+    "level_note": "Trusted: the reference recogniser (cross-validated each run against CPython json.loads on a dumped sample, verdict and value); unpaired-surrogate escapes and numbers beyond f64 range are not judged.",
+    "technique": "runtime monitoring: differential oracle (RFC 8259 recogniser) over bounded-exhaustive, mutated and generated inputs",
+}
+
 # properties without a check, with the reason (kept current)
 NOT_CLAIMED = {}
